@@ -30,6 +30,15 @@
  * At the end of every history the context is freed (application references are dropped first
  * unless the history ended with an explicit "free").
  *
+ * Client histories:  sc <seed> <op>*   (a context without endpoint; slots i = 0..15)
+ *   new:<i>           coap_new_client_session to 127.0.0.1:(6000+i); the application owns the
+ *                     initial reference
+ *   send:<i>:<c|n>    CON / NON GET /r on slot i (only while the application holds a reference)
+ *   resp:<i> rst:<i>  piggybacked 2.05 / RST for the oldest unanswered CON request of slot i
+ *   ref:<i> rel:<i> relall adv:<ms> prep free     as above
+ *   trace: NC:<sid> (session created), +,-,F,T,U,C as above, H:<slot>:<sid> (response or nack
+ *   handler ran), B[<sid>:<ref>;...] W[<sid>:<nq>:<napp>;...] (context->sessions)
+ *
  * Result line:  <trace> | <allocation trace> | <statistics>
  * trace tokens (in the order things happened):
  *   X:<key>:<now> Y:<sid>     coap_endpoint_get_session called / returned (sid 0 = NULL)
@@ -550,11 +559,250 @@ static void run_history(void) {
   fflush(stdout);
 }
 
+/* ------------------------------------------------------------------ client histories */
+#define MAXC 16
+static uintptr_t c_hp[MAXC];            /* hidden session pointer per slot */
+static int c_refs[MAXC];                /* application references per slot */
+static size_t c_answered[MAXC];
+
+static coap_session_t *c_sess(int i) {
+  return c_hp[i] ? (coap_session_t *)(c_hp[i] ^ VA_HIDE) : NULL;
+}
+static int c_slot_of(const coap_session_t *s) {
+  for (int i = 0; i < MAXC; i++)
+    if (c_hp[i] && c_hp[i] == VA_HP(s)) return i;
+  return -1;
+}
+static int c_napp_of(const coap_session_t *s) {
+  int i = c_slot_of(s);
+  return i >= 0 ? c_refs[i] : 0;
+}
+
+static coap_response_t c_on_resp(coap_session_t *s, const coap_pdu_t *sent, const coap_pdu_t *rcv,
+                                 const coap_mid_t mid) {
+  (void)sent; (void)rcv; (void)mid;
+  emit("H:%d:%d", c_slot_of(s), checked_sid(s, "response_handler"));
+  return COAP_RESPONSE_OK;
+}
+static void c_on_nack(coap_session_t *s, const coap_pdu_t *sent, const coap_nack_reason_t reason,
+                      const coap_mid_t mid) {
+  (void)sent; (void)reason; (void)mid;
+  emit("H:%d:%d", c_slot_of(s), checked_sid(s, "nack_handler"));
+}
+
+static void c_on_free(int type, void *p, uint32_t id) {
+  (void)id;
+  if (type != COAP_SESSION) return;
+  coap_session_t *s = (coap_session_t *)p;
+  int sid = sid_of(s);
+  int nq, nobs, nasync;
+  holders_of(s, &nq, &nobs, &nasync);
+  emit("F:%d:%u:%d:%d:%d:%d:%d", sid, s->ref, nq, nobs, nasync, c_napp_of(s), s->delayqueue == NULL);
+  if (sid) sess[sid - 1].live = 0;
+}
+
+static void c_snapshot(void) {
+  coap_session_t *s, *tmp;
+  if (!g_ctx) {
+    emit("B[]");
+    emit("W[]");
+    return;
+  }
+  emit("B[");
+  int first = 1;
+  SESSIONS_ITER(g_ctx->sessions, s, tmp) {
+    if (ob_cap - ob_len < 256) {
+      ob_cap *= 2;
+      ob = (char *)realloc(ob, ob_cap);
+    }
+    ob_len += (size_t)snprintf(ob + ob_len, ob_cap - ob_len, "%s%d:%u", first ? "" : ";",
+                               sid_of(s), s->ref);
+    first = 0;
+  }
+  ob[ob_len++] = ']';
+  ob[ob_len] = 0;
+  emit("W[");
+  first = 1;
+  SESSIONS_ITER(g_ctx->sessions, s, tmp) {
+    int nq, nobs, nasync;
+    holders_of(s, &nq, &nobs, &nasync);
+    if (ob_cap - ob_len < 256) {
+      ob_cap *= 2;
+      ob = (char *)realloc(ob, ob_cap);
+    }
+    ob_len += (size_t)snprintf(ob + ob_len, ob_cap - ob_len, "%s%d:%d:%d", first ? "" : ";",
+                               sid_of(s), nq, c_napp_of(s));
+    first = 0;
+  }
+  ob[ob_len++] = ']';
+  ob[ob_len] = 0;
+}
+
+static void c_drop_app_refs(void) {
+  for (int i = 0; i < MAXC; i++) {
+    while (c_refs[i] > 0) {
+      coap_session_t *s = c_sess(i);
+      int sid = checked_sid(s, "app_release");
+      c_refs[i]--;
+      if (sid) {
+        emit("-:%d:1", sid);
+        coap_session_release(s);
+      }
+    }
+    c_hp[i] = 0;
+  }
+}
+
+/* oldest CON request sent on session s that the script has not answered; -1 if none */
+static long c_oldest_con(int i, const coap_session_t *s) {
+  for (size_t k = c_answered[i]; k < vn_nout; k++) {
+    const vn_dgram_t *d = &vn_out[k];
+    if (d->session == s && d->len >= 4 && ((d->data[0] >> 4) & 3) == COAP_MESSAGE_CON) {
+      c_answered[i] = k + 1;
+      return (long)k;
+    }
+  }
+  c_answered[i] = vn_nout;
+  return -1;
+}
+
+static void run_client_history(void) {
+  unsigned long seed = strtoul(vtok[1], NULL, 10);
+  ob_len = 0;
+  if (!ob) {
+    ob_cap = 65536;
+    ob = (char *)malloc(ob_cap);
+  }
+  ob[0] = 0;
+  va_reset();
+  vn_log_reset();
+  vn_nnodes = 0;
+  vn_now = 1000;
+  vn_prng_seed(seed);
+  vn_on_send = on_send;
+  nsess = 0;
+  n_uaf_marks = 0;
+  memset(c_hp, 0, sizeof(c_hp));
+  memset(c_refs, 0, sizeof(c_refs));
+  memset(c_answered, 0, sizeof(c_answered));
+  memset(app_refs, 0, sizeof(app_refs));
+  memset(app_sess, 0, sizeof(app_sess));
+  va_on_alloc = on_alloc;
+  va_on_free = c_on_free;
+  g_ep = NULL;
+  g_ctx = coap_new_context(NULL);
+  coap_register_response_handler(g_ctx, c_on_resp);
+  coap_register_nack_handler(g_ctx, c_on_nack);
+  c_snapshot();
+
+  for (int t = 2; t < vntok && g_ctx; t++) {
+    char *op = vtok[t];
+    if (!strncmp(op, "new:", 4)) {
+      int i = atoi(op + 4);
+      if (i < 0 || i >= MAXC || c_refs[i] > 0) continue;
+      coap_session_t *old = c_sess(i);
+      if (old && sid_of(old)) continue;     /* still alive (a queued message holds it) */
+      coap_address_t a;
+      vn_addr4(&a, VN_LOOPBACK, (uint16_t)(6000 + i));
+      coap_session_t *s = coap_new_client_session(g_ctx, NULL, &a, COAP_PROTO_UDP);
+      if (s) {
+        c_hp[i] = VA_HP(s);
+        c_refs[i] = 1;
+        c_answered[i] = vn_nout;
+        emit("NC:%d", sid_of(s));
+      }
+    } else if (!strncmp(op, "send:", 5)) {
+      int i = atoi(op + 5);
+      char *c = strchr(op + 5, ':');
+      int con = !(c && c[1] == 'n');
+      if (i < 0 || i >= MAXC || c_refs[i] <= 0) continue;
+      coap_session_t *s = c_sess(i);
+      coap_pdu_t *p = coap_new_pdu(con ? COAP_MESSAGE_CON : COAP_MESSAGE_NON, COAP_REQUEST_CODE_GET, s);
+      if (p) {
+        uint8_t tok[8];
+        size_t tl;
+        coap_session_new_token(s, &tl, tok);
+        coap_add_token(p, tl, tok);
+        coap_add_option(p, COAP_OPTION_URI_PATH, 1, (const uint8_t *)"r");
+        coap_send(s, p);
+      }
+    } else if (!strncmp(op, "resp:", 5) || !strncmp(op, "rst:", 4)) {
+      int is_rst = op[1] == 's';
+      int i = atoi(op + (is_rst ? 4 : 5));
+      if (i < 0 || i >= MAXC) continue;
+      coap_session_t *s = c_sess(i);
+      if (!s || !sid_of(s)) continue;
+      long k = c_oldest_con(i, s);
+      if (k < 0) continue;
+      uint8_t b[32];
+      size_t n = 0;
+      unsigned tkl = vn_out[k].data[0] & 15;
+      if (tkl > 8) tkl = 0;
+      b[n++] = (uint8_t)(0x40 | ((is_rst ? COAP_MESSAGE_RST : COAP_MESSAGE_ACK) << 4) | (is_rst ? 0 : tkl));
+      b[n++] = is_rst ? 0 : COAP_RESPONSE_CODE_CONTENT;
+      b[n++] = vn_out[k].data[2];
+      b[n++] = vn_out[k].data[3];
+      if (!is_rst) {
+        memcpy(b + n, vn_out[k].data + 4, tkl);
+        n += tkl;
+      }
+      vn_inject_session(g_ctx, s, b, n);
+      emit("P:%llu", (unsigned long long)vn_now);
+    } else if (!strncmp(op, "ref:", 4)) {
+      int i = atoi(op + 4);
+      if (i < 0 || i >= MAXC || c_refs[i] <= 0) continue;
+      coap_session_t *s = c_sess(i);
+      emit("+:%d:1", sid_of(s));
+      coap_session_reference(s);
+      c_refs[i]++;
+    } else if (!strncmp(op, "rel:", 4)) {
+      int i = atoi(op + 4);
+      if (i < 0 || i >= MAXC || c_refs[i] <= 0) continue;
+      coap_session_t *s = c_sess(i);
+      int sid = checked_sid(s, "app_release");
+      c_refs[i]--;
+      if (sid) {
+        emit("-:%d:1", sid);
+        coap_session_release(s);
+      }
+    } else if (!strcmp(op, "relall")) {
+      c_drop_app_refs();
+    } else if (!strncmp(op, "adv:", 4)) {
+      vn_advance((coap_tick_t)strtoull(op + 4, NULL, 10));
+    } else if (!strcmp(op, "prep")) {
+      vn_prepare(g_ctx);
+      emit("P:%llu", (unsigned long long)vn_now);
+    } else if (!strcmp(op, "free")) {
+      teardown();
+    }
+    c_snapshot();
+  }
+  if (g_ctx) {
+    c_drop_app_refs();
+    teardown();
+    c_snapshot();
+  }
+  vn_log_reset();
+  unsigned long uaf = va_flush();
+  fputs(ob, stdout);
+  fputs(" | ", stdout);
+  va_dump(stdout);
+  printf(" | uaf_writes=%lu bad_frees=%lu uaf_marks=%u live=%zu types=", uaf, va_bad_frees,
+         n_uaf_marks, va_live_count());
+  va_dump_live_types(stdout);
+  printf(" sessions=%d\n", nsess);
+  fflush(stdout);
+}
+
 int main(void) {
   coap_startup();
   coap_set_log_level(COAP_LOG_EMERG);
   for (size_t i = 0; i < sizeof(big_body); i++) big_body[i] = (uint8_t)('a' + i % 26);
   while (next_case(stdin)) {
+    if (vntok >= 2 && !strcmp(vtok[0], "sc")) {
+      run_client_history();
+      continue;
+    }
     if (vntok < 4 || strcmp(vtok[0], "se")) {
       printf("ERROR bad case\n");
       fflush(stdout);
